@@ -89,6 +89,18 @@ var jlOps = map[token.Token]string{token.GTR: "gt", token.LSS: "lt", token.GEQ: 
 func (j *jlX) evalHook(e ast.Expr, st *vstate, pend *[]*vtree) (string, bool, bool) {
 	x := j.fx.x
 	switch n := ast.Unparen(e).(type) {
+	case *ast.Ident:
+		// a package-level `var re = regexp.MustCompile(<constant>)` nobody assigns is the call where it is used
+		if v, ok := j.p.info.Uses[n].(*types.Var); ok && v.Parent() == j.p.pkg.Scope() {
+			if call := j.compiledOnce(v); call != nil {
+				rs, ok := x.evalCall(call, st, pend, 1)
+				if ok && len(rs) == 1 {
+					return rs[0], true, true
+				}
+				return "", false, true
+			}
+		}
+		return "", false, false
 	case *ast.FuncLit:
 		for i, c := range j.closures {
 			if c == n {
@@ -183,9 +195,68 @@ func (j *jlX) evalHook(e ast.Expr, st *vstate, pend *[]*vtree) (string, bool, bo
 	return "", false, false
 }
 
+// compiledOnce: the initialiser `regexp.MustCompile(<constant string>)` of the package-level variable v, when v is
+// declared with it and never written anywhere in the package (nor has its address taken).
+func (j *jlX) compiledOnce(v *types.Var) *ast.CallExpr {
+	var init *ast.CallExpr
+	for _, f := range j.p.files {
+		for _, d := range f.Decls {
+			gd, ok := d.(*ast.GenDecl)
+			if !ok || gd.Tok != token.VAR {
+				continue
+			}
+			for _, sp := range gd.Specs {
+				vs := sp.(*ast.ValueSpec)
+				for i, nm := range vs.Names {
+					if j.p.info.Defs[nm] == types.Object(v) && len(vs.Values) == len(vs.Names) {
+						if c, ok := ast.Unparen(vs.Values[i]).(*ast.CallExpr); ok && j.p.text(c.Fun) == "regexp.MustCompile" && len(c.Args) == 1 {
+							if tv, ok := j.p.info.Types[c.Args[0]]; ok && tv.Value != nil {
+								init = c
+							}
+						}
+					}
+				}
+			}
+		}
+	}
+	if init == nil {
+		return nil
+	}
+	written := false
+	for _, f := range j.p.files {
+		ast.Inspect(f, func(n ast.Node) bool {
+			switch m := n.(type) {
+			case *ast.AssignStmt:
+				for _, l := range m.Lhs {
+					if id, ok := ast.Unparen(l).(*ast.Ident); ok && j.p.info.Uses[id] == types.Object(v) {
+						written = true
+					}
+				}
+			case *ast.IncDecStmt:
+				if id, ok := ast.Unparen(m.X).(*ast.Ident); ok && j.p.info.Uses[id] == types.Object(v) {
+					written = true
+				}
+			case *ast.UnaryExpr:
+				if id, ok := ast.Unparen(m.X).(*ast.Ident); ok && m.Op == token.AND && j.p.info.Uses[id] == types.Object(v) {
+					written = true
+				}
+			}
+			return !written
+		})
+	}
+	if written {
+		return nil
+	}
+	return init
+}
+
 func (j *jlX) stmtHook(s ast.Stmt, rest []ast.Stmt, st *vstate, fr *vframe) *vtree {
 	x := j.fx.x
 	switch n := s.(type) {
+	case *ast.DeclStmt:
+		if gd, ok := n.Decl.(*ast.GenDecl); ok && (gd.Tok == token.CONST || gd.Tok == token.TYPE) {
+			return x.exec(rest, st, fr) // constants are values the checker knows
+		}
 	case *ast.ExprStmt:
 		if call, ok := ast.Unparen(n.X).(*ast.CallExpr); ok {
 			switch j.p.text(call.Fun) {
@@ -481,7 +552,24 @@ func jlRowBr(pkg string) fpat {
 		pret("$ti", "$to", "res#$s.2")))
 }
 
+func jlInlineReplaces(pkg string) fpat {
+	return pc(pkg+".createTemplateFromString", []string{"field(res#$f,template)"}, "s",
+		pif("isnil(res#$s.2)", pret("res#$s.0", "res#$s.1", "nil"), pret("nil", "nil", "res#$s.2")))
+}
+
 func jlStrBr(pkg string) fpat {
+	// the other spelling: `len(parts) < n` → (parts[0], parts[0]) else (parts[0], parts[1]); both parsed, then both declared.
+	// parseDescriptor is a function of its text (the registries are never written), so parsing parts[0] again IS the input's.
+	pair := func(out, i, o string) fpat {
+		return pc(pkg+".parseDescriptor", []string{"index(res#$p,lit:0)"}, i, pc(pkg+".parseDescriptor", []string{"index(res#$p,lit:" + out + ")"}, o,
+			pc(".With", []string{"$ti", "res#$n.0", "res#$" + i, "err#$" + i}, "", pc(".With", []string{"$to", "res#$n.0", "res#$" + o, "err#$" + o}, "", pnext("$ti", "$to")))))
+	}
+	alt := pc("strings.$split", []string{"as(res#$e,string)", "lit:$sep", "lit:$cnt"}, "p",
+		pif("true(gt(lit:$cnt,len(res#$p)))", pair("0", "i1", "o1"), pair("1", "i2", "o2")))
+	return por(jlStrBrPlain(pkg), func(t *vtree, b fbind) bool { return alt(t, b) && b["cnt"] == "2" })
+}
+
+func jlStrBrPlain(pkg string) fpat {
 	return pc("strings.$split", []string{"as(res#$e,string)", "lit:$sep", "lit:$cnt"}, "p",
 		pc(pkg+".parseDescriptor", []string{"index(res#$p,lit:0)"}, "i", pc(".With", []string{"$ti", "res#$n.0", "res#$i", "err#$i"}, "",
 			pif("true(gt(len(res#$p),lit:1))",
@@ -550,12 +638,13 @@ func jlFactsOf(p *pkgInfo) jlFacts {
 	// ReadRowDefinition
 	readFile := c.fact("ReadRowDefinition", j.run("ReadRowDefinition"), jlAlt{
 		pc("os.Stat", []string{"P0"}, "s", pif("isnil(err#$s)",
-			pc("ioutil.ReadFile", []string{"P0"}, "r", pif("isnil(err#$r)",
+			pc("$rf.ReadFile", []string{"P0"}, "r", pif("isnil(err#$r)",
 				pc("yaml.Unmarshal", []string{"res#$r", "$def"}, "y", pif("isnil(res#$y)", pret("$def", "nil"), pret("nil", "WRAP(res#$y)"))),
 				pret("nil", "WRAP(err#$r)"))),
 			plog("Warn", pret("$def", "nil")))),
 		func(b fbind) (string, bool) {
-			return ".statReadYaml", b["def"] == "&RowDefinition{Columns=[]ColumnDefinition{}}"
+			// ioutil.ReadFile is os.ReadFile (io/ioutil: "As of Go 1.16, this function simply calls os.ReadFile")
+			return ".statReadYaml", b["def"] == "&RowDefinition{Columns=[]ColumnDefinition{}}" && (b["rf"] == "ioutil" || b["rf"] == "os")
 		}})
 
 	// createTemplateFromString
@@ -599,11 +688,16 @@ func jlFactsOf(p *pkgInfo) jlFacts {
 	createTemplate := c.fact("createTemplate", j.run("createTemplate"), jlAlt{
 		pc(pkg+".getTemplateFlags", []string{"P0"}, "f", pif("isnil(err#$f)",
 			pc(pkg+".ParseRowDefinition", []string{"field(res#$f,filename)"}, "d", pif("isnil(res#$d.2)",
-				pif("true(gt(len(field(res#$f,template)),lit:$min))",
-					pif("eq(field(res#$f,template),lit:$empty)", pret("res#$d.0", "res#$d.1", "nil"),
-						pc(pkg+".createTemplateFromString", []string{"field(res#$f,template)"}, "s",
-							pif("isnil(res#$s.2)", pret("res#$s.0", "res#$s.1", "nil"), pret("nil", "nil", "res#$s.2")))),
-					pret("res#$d.0", "res#$d.1", "nil")),
+				por(
+					pif("true(gt(len(field(res#$f,template)),lit:$min))",
+						pif("eq(field(res#$f,template),lit:$empty)", pret("res#$d.0", "res#$d.1", "nil"), jlInlineReplaces(pkg)),
+						pret("res#$d.0", "res#$d.1", "nil")),
+					// `template == ""` is `!(len(template) > 0)`
+					func(t *vtree, b fbind) bool {
+						b["min"] = "0"
+						return pif("eq(field(res#$f,template),lit:\"\")", pret("res#$d.0", "res#$d.1", "nil"),
+							pif("eq(field(res#$f,template),lit:$empty)", pret("res#$d.0", "res#$d.1", "nil"), jlInlineReplaces(pkg)))(t, b)
+					}),
 				pret("nil", "nil", "res#$d.2"))),
 			pret("nil", "nil", "err#$f"))),
 		func(b fbind) (string, bool) {
